@@ -8,8 +8,31 @@ import hashlib, json, os, re, sys
 ROOT = os.environ.get("VERIF_ROOT") or os.path.dirname(os.path.dirname(os.path.abspath(__file__)))
 REPO = "/repo"
 DEST = os.path.join(ROOT, "target", "instr")
-CRATES = ["common", "feel", "feel-number", "feel-parser", "feel-evaluator", "feel-grammar", "model", "model-evaluator", "examples", "recognizer"]
+CRATES = ["common", "feel", "feel-number", "feel-parser", "feel-evaluator", "feel-grammar", "model", "model-evaluator", "examples", "recognizer", "evaluator", "workspace", "server"]
 SKIP_DIRS = {"target", ".git", "benches"}
+
+def open_server_handlers(text):
+    """server/src/server.rs of the instrumented copy only: the request handlers become plain public async functions
+    (the routing attributes are removed, start_server - the only user of the routing - becomes a stub), so that the
+    loom harness can call them from its own threads; the handler bodies are untouched."""
+    text = re.sub(r'(?m)^#\[(post|get|put|delete)\("[^"]*"\)\]\n', "", text)
+    text = re.sub(r"(?m)^async fn ", "pub async fn ", text)
+    text = re.sub(r"(?m)^struct (ApplicationData|EvaluateParams)\b", r"pub struct \1", text)
+    text = re.sub(r"(?m)^  workspace: RwLock<Workspace>,", "  pub workspace: RwLock<Workspace>,", text)
+    i = text.find("pub async fn start_server(")
+    if i >= 0:
+        j = text.find("{", text.find("->", i))
+        depth, k = 0, j
+        while k < len(text):
+            if text[k] == "{":
+                depth += 1
+            elif text[k] == "}":
+                depth -= 1
+                if depth == 0:
+                    break
+            k += 1
+        text = text[:j] + "{\n  let _ = (opt_host, opt_port, opt_dir);\n  Ok(())\n}" + text[k + 1:]
+    return text
 
 def transform(path, data):
     if not path.endswith(".rs"):
@@ -18,6 +41,10 @@ def transform(path, data):
         text = data.decode("utf-8")
     except UnicodeDecodeError:
         return data, 0
+    if path.endswith("/server/src/server.rs"):
+        text = open_server_handlers(text)
+    if path.endswith("/server/src/lib.rs"):
+        text = re.sub(r"(?m)^mod (server|dto|errors);", r"pub mod \1;", text)
     n1 = text.count("std::sync::")
     text = text.replace("std::sync::", "verif_sync::")
     n2 = len(re.findall(r"(?<![:\w])thread_local!", text))
